@@ -1,4 +1,12 @@
 # C11 — static graphs present exactly the input graph
+# c11_graphs: representative subset of the (graph type x edge data x options) matrix, used by both tiers.
+# c11_graphs_full: the same plus the full matrix (c11_x_*.cpp), thorough tier only.
 set(C11_QUICK_SRCS c11_main.cpp c11_csr_a.cpp c11_csr_b.cpp c11_csr_c.cpp c11_csc.cpp c11_hyper.cpp
     c11_linear.cpp c11_inline.cpp c11_morph.cpp c11_inout.cpp c11_adaptor.cpp)
-verif_harness(c11_graphs ${C11_QUICK_SRCS} c11_extra_none.cpp)
+set(C11_EXTRA_SRCS c11_x_csr_void.cpp c11_x_csr_u64.cpp c11_x_csr_f32.cpp c11_x_csr_e12.cpp c11_x_csc_void.cpp c11_x_csc_u32.cpp c11_x_csc_u64.cpp c11_x_csc_f32.cpp c11_x_csc_e12.cpp c11_x_hyper_a.cpp c11_x_hyper_b.cpp c11_x_linear_a.cpp c11_x_linear_b.cpp c11_x_inline_a.cpp c11_x_inline_b.cpp c11_x_morph.cpp c11_x_inout_void.cpp c11_x_inout_u32.cpp c11_x_inout_u64.cpp c11_x_inout_f32.cpp c11_x_inout_e12.cpp c11_x_adaptor.cpp)
+# the representative TUs are compiled once and shared by both executables
+add_library(c11_objs OBJECT ${C11_QUICK_SRCS})
+target_link_libraries(c11_objs PRIVATE Galois::shmem)
+target_compile_options(c11_objs PRIVATE -Wno-unused-parameter -Wno-unused-variable)
+verif_harness(c11_graphs $<TARGET_OBJECTS:c11_objs> c11_extra_none.cpp)
+verif_harness(c11_graphs_full $<TARGET_OBJECTS:c11_objs> ${C11_EXTRA_SRCS} c11_extra_all.cpp)
